@@ -1,2 +1,549 @@
-// Package c04: check for property C04 (see /verif/DESIGN.md §3 C04).
+// Package c04: output is independent of batching and scheduling, and every
+// run terminates. E1: for each (chain, input) pair, every batch size b in
+// 1..N+1 is explored over ALL goroutine schedules of the real pipeline (vsched,
+// state caching). Oracles: no deadlock, no step-horizon overrun, no goroutine
+// fault; the set of (stdout, error, tee-file) outcomes over all schedules and
+// all batch sizes is a singleton; and for chains with a list-algebra reference
+// it equals that reference.
 package c04
+
+import (
+	"encoding/json"
+	"fmt"
+	"os"
+	"path/filepath"
+	"sort"
+	"strings"
+
+	"github.com/johnkerl/miller/v6/pkg/verifrt"
+
+	"verif/harness/vf"
+)
+
+func init() {
+	vf.Register(&vf.CheckDef{ID: "C04", Level: "model_checking", Run: run,
+		Workers: map[string]vf.WorkerFunc{"sched": schedWorker},
+		Replay:  replay})
+}
+
+// ---------------------------------------------------------------- configurations
+
+type chain struct {
+	Name   string                                                   // canonical text
+	Args   []string                                                 // verb chain (after main flags, before file names); "@T" is replaced by the tee/aux file path
+	Flags  []string                                                 // extra main flags
+	Ref    func(recs []string) (stdout string, tee string, ok bool) `json:"-"`
+	NoIn   bool                                                     // chain generates its own input (seqgen): run with -n
+	Aux    string                                                   // contents of an auxiliary virtual file "@L" (join left file)
+	Batch  []int                                                    // explicit batch sizes (else 1..N+1)
+	Seeded bool
+}
+
+type input struct {
+	Name  string
+	Fmt   string   // dkvp csv json nidx
+	Files []string // file contents
+	Recs  []string // the records as dkvp lines (for references)
+}
+
+func mkInput(fmtName string, n int, nfiles int) input {
+	var recs []string
+	for i := 1; i <= n; i++ {
+		g := "a"
+		if i%2 == 0 {
+			g = "b"
+		}
+		recs = append(recs, fmt.Sprintf("i=%d,g=%s", i, g))
+	}
+	in := input{Name: fmt.Sprintf("%s:N=%d:files=%d", fmtName, n, nfiles), Fmt: fmtName, Recs: recs}
+	// split records over files: first file gets ceil(n/nfiles)
+	per := (n + nfiles - 1) / nfiles
+	if per == 0 {
+		per = 1
+	}
+	for f := 0; f < nfiles; f++ {
+		lo, hi := f*per, (f+1)*per
+		if lo > n {
+			lo = n
+		}
+		if hi > n {
+			hi = n
+		}
+		part := recs[lo:hi]
+		var b strings.Builder
+		switch fmtName {
+		case "dkvp":
+			for _, r := range part {
+				b.WriteString(r + "\n")
+			}
+		case "csv":
+			b.WriteString("i,g\n")
+			for _, r := range part {
+				kv := strings.Split(r, ",")
+				b.WriteString(strings.TrimPrefix(kv[0], "i=") + "," + strings.TrimPrefix(kv[1], "g=") + "\n")
+			}
+		case "json":
+			b.WriteString("[\n")
+			for k, r := range part {
+				kv := strings.Split(r, ",")
+				fmt.Fprintf(&b, `{"i": %s, "g": "%s"}`, strings.TrimPrefix(kv[0], "i="), strings.TrimPrefix(kv[1], "g="))
+				if k < len(part)-1 {
+					b.WriteString(",")
+				}
+				b.WriteString("\n")
+			}
+			b.WriteString("]\n")
+		}
+		in.Files = append(in.Files, b.String())
+	}
+	return in
+}
+
+func join(recs []string) string {
+	if len(recs) == 0 {
+		return ""
+	}
+	return strings.Join(recs, "\n") + "\n"
+}
+
+func headN(recs []string, k int) []string {
+	if k > len(recs) {
+		k = len(recs)
+	}
+	return recs[:k]
+}
+
+func field(rec, key string) string {
+	for _, kv := range strings.Split(rec, ",") {
+		if strings.HasPrefix(kv, key+"=") {
+			return kv[len(key)+1:]
+		}
+	}
+	return ""
+}
+
+func chains(quick bool, n int) []chain {
+	var cs []chain
+	add := func(c chain) {
+		if c.Name == "" {
+			c.Name = strings.Join(append(append([]string{}, c.Flags...), c.Args...), " ")
+		}
+		cs = append(cs, c)
+	}
+	S := func(s string) []string { return strings.Fields(s) }
+	add(chain{Args: S("cat"), Ref: func(r []string) (string, string, bool) { return join(r), "", true }})
+	ks := []int{0, 1, 2, n}
+	if !quick {
+		ks = nil
+		for k := 0; k <= n+1; k++ {
+			ks = append(ks, k)
+		}
+	}
+	seenK := map[int]bool{}
+	for _, k := range ks {
+		if k < 0 || seenK[k] {
+			continue
+		}
+		seenK[k] = true
+		k := k
+		add(chain{Args: S(fmt.Sprintf("head -n %d", k)), Ref: func(r []string) (string, string, bool) { return join(headN(r, k)), "", true }})
+		add(chain{Args: S(fmt.Sprintf("cat then head -n %d", k)), Ref: func(r []string) (string, string, bool) { return join(headN(r, k)), "", true }})
+		add(chain{Args: S(fmt.Sprintf("tee @T then head -n %d", k)), Ref: func(r []string) (string, string, bool) { return join(headN(r, k)), join(r), true }})
+		add(chain{Args: S(fmt.Sprintf("head -n %d then put $j=$i", k)), Ref: func(r []string) (string, string, bool) {
+			var o []string
+			for _, x := range headN(r, k) {
+				o = append(o, x+",j="+field(x, "i"))
+			}
+			return join(o), "", true
+		}})
+		for _, j := range []int{0, 1, 2} {
+			j := j
+			if j > k+1 {
+				continue
+			}
+			add(chain{Args: S(fmt.Sprintf("head -n %d then head -n %d", k, j)), Ref: func(r []string) (string, string, bool) { return join(headN(headN(r, k), j)), "", true }})
+			if j <= 1 {
+				add(chain{Args: S(fmt.Sprintf("head -n %d then tee @T then head -n %d", k, j)), Ref: func(r []string) (string, string, bool) {
+					return join(headN(headN(r, k), j)), join(headN(r, k)), true
+				}})
+			}
+		}
+	}
+	add(chain{Args: S("head -n 3 then head -n 2 then head -n 1"), Ref: func(r []string) (string, string, bool) { return join(headN(r, 1)), "", true }})
+	add(chain{Args: S("head -n 2 then cat then head -n 1"), Ref: func(r []string) (string, string, bool) { return join(headN(r, 1)), "", true }})
+	add(chain{Args: S("head -n 1 -g g"), Ref: func(r []string) (string, string, bool) {
+		seen := map[string]bool{}
+		var o []string
+		for _, x := range r {
+			if g := field(x, "g"); !seen[g] {
+				seen[g] = true
+				o = append(o, x)
+			}
+		}
+		return join(o), "", true
+	}})
+	add(chain{Args: S("head -n 1 -g g then head -n 1"), Ref: func(r []string) (string, string, bool) { return join(headN(r, 1)), "", true }})
+	add(chain{Args: S("tac"), Ref: func(r []string) (string, string, bool) {
+		o := make([]string, len(r))
+		for i, x := range r {
+			o[len(r)-1-i] = x
+		}
+		return join(o), "", true
+	}})
+	add(chain{Args: S("tac then head -n 1"), Ref: func(r []string) (string, string, bool) {
+		if len(r) == 0 {
+			return "", "", true
+		}
+		return join(r[len(r)-1:]), "", true
+	}})
+	add(chain{Args: S("tail -n 1"), Ref: func(r []string) (string, string, bool) {
+		if len(r) == 0 {
+			return "", "", true
+		}
+		return join(r[len(r)-1:]), "", true
+	}})
+	add(chain{Args: S("sort -nr i"), Ref: func(r []string) (string, string, bool) {
+		o := make([]string, len(r))
+		for i, x := range r {
+			o[len(r)-1-i] = x
+		}
+		return join(o), "", true
+	}})
+	add(chain{Args: S("nothing"), Ref: func(r []string) (string, string, bool) { return "", "", true }})
+	add(chain{Args: S("filter $i!=2"), Ref: func(r []string) (string, string, bool) {
+		var o []string
+		for _, x := range r {
+			if field(x, "i") != "2" {
+				o = append(o, x)
+			}
+		}
+		return join(o), "", true
+	}})
+	// stateful streaming verbs: state must survive batch boundaries (singleton law only)
+	add(chain{Args: S("step -a delta,shift -f i")})
+	add(chain{Args: S("cat -n -g g")})
+	add(chain{Args: S("count-similar -g g")})
+	add(chain{Args: S("uniq -g g -c")})
+	add(chain{Args: S("stats1 -a sum,count -f i -g g")})
+	add(chain{Args: S("decimate -n 2")})
+	add(chain{Args: S("fill-down -a -f g then sec2gmt i")})
+	add(chain{Args: S("count then put $j=1")})
+	add(chain{Args: S("group-by g then head -n 1")})
+	// print / emit text rides the record stream: position relative to records
+	add(chain{Args: []string{"put", `print "p".$i`}, Ref: func(r []string) (string, string, bool) {
+		var b strings.Builder
+		for _, x := range r {
+			b.WriteString("p" + field(x, "i") + "\n" + x + "\n")
+		}
+		return b.String(), "", true
+	}})
+	add(chain{Args: []string{"put", "-q", `print "p".$i; emit mapsum({"e":$i},{"f":1})`}, Ref: func(r []string) (string, string, bool) {
+		var b strings.Builder
+		for _, x := range r {
+			b.WriteString("p" + field(x, "i") + "\ne=" + field(x, "i") + ",f=1\n")
+		}
+		return b.String(), "", true
+	}})
+	add(chain{Args: []string{"put", `print "p".$i`, "then", "cat", "then", "head", "-n", "2"}})
+	add(chain{Args: []string{"put", "-q", `@s[$g]=$i; end{emit @s,"g"; print "done"}`}})
+	add(chain{Args: []string{"head", "-n", "2", "then", "put", `end{print "end"}`}})
+	add(chain{Args: []string{"put", `tee > "@T", $*`, "then", "head", "-n", "1"}, Ref: func(r []string) (string, string, bool) {
+		if len(r) == 0 {
+			return "", "\x00absent", true // a redirected tee opens its file on first write
+		}
+		return join(headN(r, 1)), join(r), true
+	}})
+	// progress reporting and record hashing flags must not change stdout
+	add(chain{Flags: S("--nr-progress-mod 1"), Args: S("cat"), Ref: func(r []string) (string, string, bool) { return join(r), "", true }})
+	add(chain{Flags: S("--no-hash-records"), Args: S("sort -nr i then put $k=$g"), Name: "hashcmp: sort -nr i then put $k=$g"})
+	add(chain{Flags: S("--hash-records"), Args: S("sort -nr i then put $k=$g"), Name: "hashcmp: sort -nr i then put $k=$g"})
+	// seeded randomness
+	add(chain{Flags: S("--seed 1"), Args: S("shuffle"), Seeded: true})
+	add(chain{Flags: S("--seed 1"), Args: S("bootstrap"), Seeded: true})
+	add(chain{Flags: S("--seed 1"), Args: S("sample -k 1 -g g"), Seeded: true})
+	add(chain{Flags: S("--seed 1"), Args: []string{"put", "$r=urandint(1,1000)"}, Seeded: true})
+	add(chain{Flags: S("--seed 1"), Args: []string{"put", "$r=urandint(1,1000)", "then", "put", "$s=urandint(1,1000)"}, Seeded: true})
+	// nested reader
+	add(chain{Args: S("join -j g -f @L"), Aux: "g=a,l=1\ng=b,l=2\n"})
+	add(chain{Args: S("join -j g -f @L then head -n 1"), Aux: "g=a,l=1\ng=b,l=2\n"})
+	add(chain{Args: S("join -s -j g -f @L"), Aux: "g=a,l=1\ng=b,l=2\n"})
+	// self-generating chains
+	for _, m := range []int{0, 1, 3, 5} {
+		m := m
+		for _, k := range []int{0, 1, 2} {
+			k := k
+			add(chain{NoIn: true, Args: S(fmt.Sprintf("seqgen --start 1 --stop %d then head -n %d", m, k)), Batch: []int{1, 2, 500},
+				Ref: func(r []string) (string, string, bool) {
+					var o []string
+					for i := 1; i <= m && i <= k; i++ {
+						o = append(o, fmt.Sprintf("i=%d", i))
+					}
+					return join(o), "", true
+				}})
+		}
+	}
+	add(chain{NoIn: true, Args: S("seqgen --start 1 --stop 3 then tac"), Batch: []int{1, 500}})
+	return cs
+}
+
+// ---------------------------------------------------------------- one configuration under the explorer
+
+type config struct {
+	Chain chain
+	In    input
+	B     int
+}
+
+func (c *config) argv(dir string) ([]string, vf.VFS) {
+	var argv []string
+	files := vf.VFS{}
+	switch c.In.Fmt {
+	case "dkvp":
+	case "csv":
+		argv = append(argv, "--icsv", "--odkvp")
+	case "json":
+		argv = append(argv, "--ijson", "--odkvp")
+	}
+	argv = append(argv, "--records-per-batch", fmt.Sprint(c.B))
+	argv = append(argv, c.Chain.Flags...)
+	if c.Chain.NoIn {
+		argv = append(argv, "-n")
+	}
+	for _, a := range c.Chain.Args {
+		a = strings.ReplaceAll(a, "@T", filepath.Join(dir, "tee.out"))
+		a = strings.ReplaceAll(a, "@L", "/vfs/left.dkvp")
+		argv = append(argv, a)
+	}
+	if c.Chain.Aux != "" {
+		files["/vfs/left.dkvp"] = c.Chain.Aux
+	}
+	if !c.Chain.NoIn {
+		for i, f := range c.In.Files {
+			name := fmt.Sprintf("/vfs/in%d.%s", i+1, c.In.Fmt)
+			files[name] = f
+			argv = append(argv, name)
+		}
+	}
+	return argv, files
+}
+
+func (c *config) spec(dir string) vf.ExploreSpec {
+	argv, files := c.argv(dir)
+	tee := filepath.Join(dir, "tee.out")
+	return vf.ExploreSpec{
+		Before: func() { os.Remove(tee) },
+		Body: func() string {
+			out, err := vf.InvokeMlr(argv, vf.MlrOpts{Files: files})
+			e := "nil"
+			if err != nil {
+				e = err.Error()
+			}
+			return "err=" + e + "\nstdout=" + out
+		},
+		After: func(o string, r *verifrt.Result) string {
+			vf.TakeStderr()
+			if b, err := os.ReadFile(tee); err == nil {
+				o += "\ntee=" + string(b)
+			}
+			return o
+		},
+		MaxExecs: 60000,
+		MaxSteps: 100000,
+	}
+}
+
+type cfgResult struct {
+	Key      string
+	Outcomes []string
+}
+
+func cfgKey(c *config) string {
+	return fmt.Sprintf("%s|%s|b=%d", c.Chain.Name, c.In.Name, c.B)
+}
+
+// explore one configuration; report per-execution violations; return outcome set.
+func exploreConfig(w *vf.Worker, c *config, dir string) []string {
+	spec := c.spec(dir)
+	r := vf.Explore(spec)
+	w.Rep.States += r.States
+	w.Rep.Transitions += r.Transitions
+	w.Eval(int64(r.Execs))
+	w.Count("executions_completed", int64(r.Completed))
+	w.Count("executions_cut_at_cached_state", int64(r.Cut))
+	w.Count("branching_points", int64(r.Branchings))
+	w.Count("configurations", 1)
+	key := cfgKey(c)
+	rp := func(sched []int) map[string]any {
+		argv, _ := c.argv("@DIR")
+		return map[string]any{"chain": c.Chain.Name, "input": c.In.Name, "b": c.B, "argv": argv, "files": c.In.Files, "aux": c.Chain.Aux, "schedule": sched}
+	}
+	if r.Stalled {
+		w.Violation("stall:"+key, "a goroutine ran 60 s without reaching a scheduling point (non-termination) in "+key, rp(r.StalledAt))
+		return nil
+	}
+	if !r.Exhaustive {
+		w.Inexhaustive(fmt.Sprintf("%s: execution budget %d hit (states=%d)", key, spec.MaxExecs, r.States))
+	}
+	if r.Branchings == 0 {
+		w.Count("vacuous_configurations_no_branching", 1)
+	} else {
+		w.Nontrivial(1)
+	}
+	if r.Deadlocks > 0 {
+		w.Violation("deadlock:"+key, fmt.Sprintf("deadlock in %d of %d executions of `mlr %s` (blocked: %s)", r.Deadlocks, r.Execs, key, strings.Join(r.Blocked, " ")), rp(r.DeadlockAt))
+	}
+	if r.Horizons > 0 {
+		w.Violation("horizon:"+key, fmt.Sprintf("step horizon exceeded in %d executions of %s (non-termination)", r.Horizons, key), rp(r.HorizonAt))
+	}
+	for f, n := range r.Faults {
+		w.Violation("fault:"+key+":"+trunc(f, 80), fmt.Sprintf("%s in %d executions of %s", f, n, key), rp(r.FaultAt[f]))
+	}
+	outs := r.OutcomeList()
+	if len(outs) > 1 {
+		w.Violation("schedule-dependent:"+key, fmt.Sprintf("%d distinct outcomes over the schedules of %s: %q vs %q", len(outs), key, trunc(outs[0], 300), trunc(outs[1], 300)),
+			map[string]any{"chain": c.Chain.Name, "input": c.In.Name, "b": c.B, "schedule_a": r.Witness[outs[0]], "schedule_b": r.Witness[outs[1]], "outcome_a": outs[0], "outcome_b": outs[1]})
+	}
+	w.AddSet("outcomes", fmt.Sprint(len(outs)))
+	return outs
+}
+
+func trunc(s string, n int) string {
+	if len(s) > n {
+		return s[:n] + "..."
+	}
+	return s
+}
+
+type pairKey struct{ chain, in string }
+
+func enumerate(quick bool) (pairs [][]*config) {
+	ns := []int{0, 1, 2, 3, 4}
+	if !quick {
+		ns = []int{0, 1, 2, 3, 4, 5, 6}
+	}
+	var inputs []input
+	for _, n := range ns {
+		inputs = append(inputs, mkInput("dkvp", n, 1))
+	}
+	nmax := ns[len(ns)-1]
+	inputs = append(inputs, mkInput("dkvp", nmax, 2), mkInput("csv", 3, 1), mkInput("csv", nmax, 2), mkInput("json", 3, 1), mkInput("json", nmax, 2))
+	byName := map[pairKey][]*config{}
+	var order []pairKey
+	for _, in := range inputs {
+		n := len(in.Recs)
+		for _, ch := range chains(quick, n) {
+			if ch.NoIn && in.Name != inputs[0].Name {
+				continue
+			}
+			if in.Fmt != "dkvp" && !(strings.HasPrefix(ch.Name, "cat") || strings.HasPrefix(ch.Name, "head -n 1") || strings.HasPrefix(ch.Name, "head -n 2 then head") || ch.Name == "tac" || strings.HasPrefix(ch.Name, "tee")) {
+				continue // other readers: the reader-facing chains only
+			}
+			bs := ch.Batch
+			if bs == nil {
+				for b := 1; b <= n+1; b++ {
+					bs = append(bs, b)
+				}
+				if quick && n >= 3 && len(ch.Name) > 40 {
+					bs = []int{1, 2, n + 1}
+				}
+			}
+			pk := pairKey{ch.Name, in.Name}
+			if _, ok := byName[pk]; !ok {
+				order = append(order, pk)
+			}
+			for _, b := range bs {
+				byName[pk] = append(byName[pk], &config{Chain: ch, In: in, B: b})
+			}
+		}
+	}
+	for _, pk := range order {
+		pairs = append(pairs, byName[pk])
+	}
+	return pairs
+}
+
+func schedWorker(w *vf.Worker) {
+	if !verifrt.Instrumented {
+		w.Broken("C04 sched worker started in a build without sched instrumentation")
+		return
+	}
+	dir, err := os.MkdirTemp("/dev/shm", "verif-c04-")
+	if err != nil {
+		w.Broken("tempdir: %v", err)
+		return
+	}
+	defer os.RemoveAll(dir)
+	pairs := enumerate(w.Quick())
+	for i, cfgs := range pairs {
+		idx := uint64(i + 1)
+		if !w.Mine(idx) {
+			continue
+		}
+		w.Begin(idx)
+		w.Label(func() string { return cfgs[0].Chain.Name + " | " + cfgs[0].In.Name })
+		union := map[string][]int{}
+		for _, c := range cfgs {
+			for _, o := range exploreConfig(w, c, dir) {
+				union[o] = append(union[o], c.B)
+			}
+		}
+		ch, in := cfgs[0].Chain, cfgs[0].In
+		pkey := ch.Name + "|" + in.Name
+		if len(union) > 1 {
+			var outs []string
+			for o := range union {
+				outs = append(outs, o)
+			}
+			sort.Strings(outs)
+			w.Violation("batch-dependent:"+pkey, fmt.Sprintf("outcome depends on --records-per-batch for `%s` on %s: b=%v gives %q but b=%v gives %q", ch.Name, in.Name, union[outs[0]], trunc(outs[0], 300), union[outs[1]], trunc(outs[1], 300)),
+				map[string]any{"chain": ch.Name, "input": in.Name, "files": in.Files, "outcomes": union})
+		}
+		if ch.Ref != nil && len(union) >= 1 {
+			recs := in.Recs
+			stdout, tee, _ := ch.Ref(recs)
+			exp := "err=nil\nstdout=" + stdout
+			if strings.Contains(strings.Join(ch.Args, " "), "@T") && tee != "\x00absent" {
+				exp += "\ntee=" + tee
+			}
+			for o, bs := range union {
+				if o != exp {
+					w.Violation("reference:"+pkey, fmt.Sprintf("`mlr %s` on %s (b=%v): got %q, sequential reference says %q", ch.Name, in.Name, bs, trunc(o, 400), trunc(exp, 400)),
+						map[string]any{"chain": ch.Name, "input": in.Name, "files": in.Files, "got": o, "expected": exp, "b": bs})
+				}
+			}
+			w.Count("pairs_with_reference", 1)
+		}
+		w.Count("chain_input_pairs", 1)
+		if len(w.Rep.Samples) < 2 {
+			argv, _ := cfgs[0].argv("@DIR")
+			w.Sample(map[string]any{"argv": argv, "input_files": in.Files, "batch_sizes": len(cfgs), "distinct_outcomes_over_all_schedules_and_batch_sizes": len(union)})
+		}
+	}
+	// hashcmp: the two hashing flags form one pair by name above (same chain name => same pair) so the
+	// singleton law across them is already enforced by the union.
+}
+
+func run(c *vf.Ctx) {
+	c.Rule = "each configuration = (verb chain, input, --records-per-batch b); every configuration is explored over ALL goroutine schedules of the real pipeline (cooperative scheduler over rewritten channel ops/selects/spawns, DFS by re-execution, state caching on per-goroutine histories + channel contents). evaluations = executions run; distinct_nontrivial = configurations whose schedule space had at least one branching point; states = distinct global states at branching points; transitions = scheduler steps"
+	c.Assume("goroutines interact only through intercepted operations (channels, selects, close, mutex); unsynchronised shared memory is invisible to the cooperative scheduler (guarded by a separate free-running -race pass, non-deciding)")
+	c.Assume("external processes (--prepipe, tee -p, | redirects) are outside the scheduler and not explored here")
+	c.Assume("inputs: N<=4 (quick) / N<=6 (thorough) records, 1-2 files, dkvp/csv/json readers; batch sizes 1..N+1")
+	pairs := enumerate(c.Quick())
+	ncfg := 0
+	for _, p := range pairs {
+		ncfg += len(p)
+	}
+	c.Extra["chain_input_pairs_enumerated"] = len(pairs)
+	c.Extra["configurations_enumerated"] = ncfg
+	res := c.RunPool(vf.PoolSpec{Worker: "sched", Sched: true, Shards: len(pairs), StallSecs: 600,
+		CrashKey: func(idx uint64, label, kind, tail string) (string, string) {
+			return "crash:" + label, fmt.Sprintf("worker %s while exploring %s: %s", kind, label, trunc(tail, 600))
+		}})
+	c.TracesValidated = c.Counters["executions_completed"]
+	c.Extra["distinct_outcome_counts_per_configuration"] = vf.SortedSet(res, "outcomes")
+	c.Extra["note_traces"] = "exploration is on the implementation itself: every execution is an implementation trace (traces_validated_against_impl = completed executions)"
+}
+
+func replay(c *vf.Ctx, raw json.RawMessage) {
+	fmt.Println("replay: re-run the check; schedule replays are printed by `h-sched-c04 check C04 --replay` (not implemented in the plain binary)")
+}
